@@ -14,12 +14,12 @@ from mc import core, refcip as R, sim, wire as W
 
 ID = "C06"
 LEVEL = "model_checking"
-RULE = ("BFS over canonical session states (alive, registered?, #open connections, tag store), every frame of a 24-frame alphabet "
+RULE = ("BFS over canonical session states (alive, registered?, #open connections, tag store), every frame of a 27-frame alphabet "
         "from every state; all frame sequences up to length N in two deliveries; pipelined runs k=1..64. non-trivial = distinct "
         "(state, frame) / sequences containing a failing or session-ending frame or a write")
-BOUNDS = {"quick": "closure of the state graph (<= 2 open connections); all sequences of length <= 2 over 24 frames + length 3 over a 10-frame "
+BOUNDS = {"quick": "closure of the state graph (<= 2 open connections); all sequences of length <= 2 over 27 frames + length 3 over a 10-frame "
                    "sub-alphabet, x {one per recv, coalesced}; runs k in {1,2,3,8,64}",
-          "thorough": "closure; all sequences of length <= 3 over 24 frames, length 4 over the 8-frame sub-alphabet; runs k = 1..64"}
+          "thorough": "closure; all sequences of length <= 3 over 27 frames, length 4 over the 8-frame sub-alphabet; runs k = 1..64"}
 ASSUMPTIONS = ["the one malformed frame of the alphabet (bad CPF item count) is outside 'well-formed': for it only 'one error frame or a "
                "closed connection' is required (C08's rule)",
                "at most 2 simultaneously open Forward Open connections per session are explored"]
@@ -31,7 +31,7 @@ ADDR = ("127.0.0.1", 10001)
 # (name, supported?, ends_session?)   supported: True -> CIP reply expected; False -> non-zero enip status expected; None -> special
 KINDS = [
     "register", "list_services", "list_identity", "list_interfaces", "legacy",
-    "read_ok", "read_range", "write_v1", "write_v0", "write_type", "gas", "bundle2", "read_wrapped", "unknown_service", "unroutable_class",
+    "read_ok", "read_range", "write_v1", "write_v0", "write_type", "write_unholdable", "gas", "bundle2", "read_wrapped", "unknown_service", "unroutable_class",
     "unknown_tag", "fwd_open", "fwd_open_large", "fwd_close", "unit_read", "unit_write", "bad_cpf", "bad_command", "read_session0",
     "read_wrong_session", "unregister",
 ]
@@ -107,6 +107,8 @@ def build(kind, h, ctx):
         cip = W.write_tag(W.tag_path("a"), W.INT, [0, 0])
     elif kind == "write_type":
         cip = W.write_tag(W.tag_path("a"), W.DINT, [7])
+    elif kind == "write_unholdable":                      # a compatible request type carrying a value the tag's type cannot hold
+        cip = W.write_tag(W.tag_path("a"), W.UINT, [1, 40000])
     elif kind == "gas":
         cip = W.get_attribute_single(W.cia_path(2, 1, 1))
     elif kind == "bundle2":
